@@ -165,7 +165,7 @@ func (r *Report) Finish(explanation string, assumptions []string, notCovered str
 			continue
 		}
 		for i, k := range known {
-			if k.prop == r.Prop && k.key == o.Key() {
+			if k.prop == r.Prop && (k.key == o.Key() || k.key == baseKeyOfCfgObligation(o)) {
 				o.Status = "known"
 				used[i] = true
 				fmt.Printf("KNOWN-FINDING: property=%s %s %s %s: %s\n", r.Prop, o.Rule, o.Construct, o.Kind, k.text)
@@ -290,4 +290,26 @@ func (r *Report) failed() int {
 		}
 	}
 	return n
+}
+
+// baseKeyOfCfgObligation: the thorough tier re-runs every rule on other GOOS/GOARCH loads and
+// records a failure there as rule "<prop>.cfg[<os/arch>]", construct "[<os/arch>] <construct>",
+// kind "<rule>:<kind>". A known finding is the same finding on every configuration: map such an
+// obligation back to the key it has on the native load.
+func baseKeyOfCfgObligation(o *Obl) string {
+	i := strings.Index(o.Rule, ".cfg[")
+	if i < 0 {
+		return ""
+	}
+	c := o.Construct
+	if strings.HasPrefix(c, "[") {
+		if j := strings.Index(c, "] "); j >= 0 {
+			c = c[j+2:]
+		}
+	}
+	k := strings.SplitN(o.Kind, ":", 2)
+	if len(k) != 2 {
+		return ""
+	}
+	return k[0] + "|" + c + "|" + k[1]
 }
